@@ -1279,12 +1279,19 @@ def dec2hp_v(dec):
 def hp2dec_v(hp):
     # round the scaled value so that a product falling just below a digit
     # boundary (e.g. 259.02 * 1000 = 259019.99999999997) stays in its field
-    degmin, second = divmod((abs(hp) * 1000).round(9), 10)
-    degree, minute = divmod(degmin, 100)
+    scaled = abs(hp) * 1000
+    # the fields are validated at the resolution hp2dec reads them with (13
+    # decimals of the HP value below 512 degrees, 12 from there): seconds of
+    # 59.999999999 are valid although they round to 60 below
+    fine = scaled.round(9)
+    fine[abs(hp) < 512] = scaled[abs(hp) < 512].round(10)
+    degmin, second = divmod(fine, 10)
     # second holds tens of seconds (S.sss): 6 or more is a seconds field of 60+
-    if (minute >= 60).any() or (second >= 6).any():
+    if (degmin % 100 >= 60).any() or (second >= 6).any():
         raise ValueError('Invalid HP Notation: minutes or seconds of 60 or '
                          'more')
+    degmin, second = divmod(scaled.round(9), 10)
+    degree, minute = divmod(degmin, 100)
     dec = degree + (minute / 60) + (second / 360)
     dec[hp <= 0] = -dec[hp <= 0]
     return dec
